@@ -23,6 +23,10 @@ def _gen():
     return m
 
 
+class MissingBlock(Exception):
+    pass
+
+
 def wrap(text):
     """the documented wrapping: a snippet without a package clause is put into `package policy`"""
     if re.search(r'^package\s', text, re.M):
@@ -35,8 +39,7 @@ def file_text(row, fdir, f):
         lab, i = f['docs']
         blocks = row[lab]
         if i >= len(blocks):
-            raise RuntimeError('fixture %s/%s refers to docs block %s[%d] which the page no longer has'
-                               % (row['category'], row['name'], lab, i))
+            raise MissingBlock('%s[%d]' % (lab, i))
         return wrap(blocks[i])[0]
     if 'file' in f:
         return open(os.path.join(fdir, f['file']), encoding='utf-8').read()
@@ -63,10 +66,15 @@ def build_cases(table):
         for lab in ('avoid', 'prefer'):
             for si, sc in enumerate(fx[lab]):
                 files = []
-                for f in sc['files']:
-                    if 'docs' in f:
-                        used.add(tuple(f['docs']))
-                    files.append({'name': f['name'], 'text': file_text(row, fdir, f)})
+                try:
+                    for f in sc['files']:
+                        if 'docs' in f:
+                            used.add(tuple(f['docs']))
+                        files.append({'name': f['name'], 'text': file_text(row, fdir, f)})
+                except MissingBlock as e:
+                    # the page lost a block the fixture builds on
+                    problems.append({'kind': 'fixture-refers-to-missing-docs-block', 'page': key, 'block': str(e)})
+                    continue
                 cases.append({
                     'id': len(cases), 'category': row['category'], 'rule': row['name'], 'label': lab, 'scenario': si,
                     'files': files, 'config_yaml': sc.get('config_yaml', fx.get('config_yaml', '')),
@@ -423,7 +431,8 @@ def run(ctx):
         'table_problems': problems[:10],
         'samples': sample,
         'exhaustive': 'over the docs table x the grammar up to the depth of the tier (quick: identity + 3 single '
-                      'transformations; thorough: all compositions up to depth 3 over {P1,P3,P10,T1,C,A}); not over policies',
+                      'transformations; thorough: all compositions up to depth 3 over {P1,P3,P10,T1,C,A}, depth 2 for '
+                      'scenarios that cannot share a lint call: several files / aggregate / path-dependent); not over policies',
     })
     return vlib.finish(ctx, 'other', cov, [
         'the oracle is the docs\' own Avoid/Prefer labelling; fixtures under corpus/C08 supply what a page does not show '
